@@ -28,7 +28,6 @@ REGISTRY = {
             "clvmr::Allocator::{new,new_atom,new_u64,atom,atom_len,sexp}",
             "clvm_traits::encode_number",
             "clvm_traits::decode_number::<1|2|4|8|16>",
-            "clvm_traits::ClvmEncoder::encode_bigint (default method; thorough tier: c11t_encode_bigint_*)",
         ],
         "bounds": {
             "u64 values": "all 2^64 (fully symbolic)",
@@ -43,7 +42,8 @@ REGISTRY = {
             "atoms longer than 10 bytes offered to sanitize_uint (classification is by the first two bytes and the length only)",
             "decode_number inputs longer than LEN+2 bytes (MAX_PADDING_BYTES=64 path)",
             "clvmr::Allocator::new_number (num-bigint) and the ToClvm/FromClvm trait plumbing around encode/decode_number "
-            "(the default ClvmEncoder::encode_bigint is in the thorough tier only: num-bigint arithmetic costs > 15 min per query)",
+            "(a harness for the default ClvmEncoder::encode_bigint exists, c11x_encode_bigint_*, but gave no verdict within 30 min: num-bigint "
+            "arithmetic under CBMC; not registered)",
         ],
         "assumptions": ["spec::canon_u64 is the reference statement of the minimal two's-complement form "
                         "(self-checked by harness c11_spec_selfcheck and cross-stated in smt/canon.smt2)"],
@@ -226,32 +226,24 @@ REGISTRY = {
         "assumptions": ["kh/src/c05.rs::spec_final_message is the table of coin attributes and domain constants per opcode"],
     },
     "C19": {
-        "level_text": "Bounded proof (Kani/CBMC). Fast-forward: the real fast_forward_singleton on a curried singleton puzzle, a lineage "
-                      "solution and three coins built forwards as a genuine scenario and then perturbed field by field with symbolic "
-                      "deltas: accepted <=> puzzle is the singleton top layer curried with its own mod hash, all three amounts odd, coin / "
-                      "new parent / new coin locked by the revealed puzzle, new coin a child of the new parent, solution amount = coin "
-                      "amount, lineage proof names this inner puzzle and the coin's real parent; and the rewritten solution differs "
-                      "only in lineage parent, parent amount and coin amount. Flag and fingerprint half: MempoolVisitor::new_spend / condition (every condition "
+        "level_text": "Bounded proof (Kani/CBMC) of the flag and fingerprint half: MempoolVisitor::new_spend / condition (every condition "
                       "kind, any prior flags, any counter) / post_spend (0..2 created coins, 128-bit sum) clear exactly the documented "
                       "eligibility flags, so a dedup-eligible spend has no signature or message condition and creates at least as much "
                       "value as it consumes; compute_puzzle_fingerprint hashes an injective encoding (u32 length prefix per atom, fixed "
                       "arity per opcode, hint-or-empty) of exactly what the real parse_args reports, and refuses signature/message "
                       "conditions.",
-        "level_note": "'The rewritten solution runs successfully against the new coin' executes CLVM and is outside (needs run_program); the "
-                      "refusal conditions and the rewrite itself run no CLVM and are decided. Under Kani the singleton top-layer program is "
-                      "a stand-in atom which the digest model maps to SINGLETON_TOP_LAYER_V1_1_HASH (natively the real program is used), "
-                      "amounts written to the new solution < 2^26 / 2^26..2^31, two-byte canonical solution amounts. THOROUGH TIER ONLY: the "
-                      "harness needs > 15 min and ~8 GB (c19t_ff_*); the quick tier covers the flag and fingerprint half. "
+        "level_note": "fast_forward_singleton: 'runs successfully against the new coin' executes CLVM (needs run_program); its refusal "
+                      "conditions and the rewrite run no CLVM, and a harness for them exists (kh/src/c19f.rs, c19x_ff_*: genuine scenario built "
+                      "forwards, every guarded field perturbed by a symbolic delta, accepted <=> genuine) but gave no verdict within 30 min / "
+                      "8 GB and is NOT registered - fast-forward stays outside the claim. "
                       "The SHA recorder (S3) makes the fingerprint's byte stream observable; collision resistance is not used.",
         "quick": ["c19_"],
         "thorough": ["c19t_"],
         "min_quick": 9,
-        "min_thorough": 13,
+        "min_thorough": 12,
         "timeout_quick": 900,
         "timeout_thorough": 1800,
         "functions": [
-            "chia_consensus::fast_forward::{fast_forward_singleton, curry_and_treehash, curry_single_arg}",
-            "chia_puzzle_types: CurriedProgram<NodePtr, SingletonArgs<NodePtr>>::from_clvm, SingletonSolution::{from_clvm,to_clvm}, Proof/LineageProof",
             "chia_consensus::conditions::MempoolVisitor::{new_spend,condition,post_spend}",
             "chia_consensus::puzzle_fingerprint::{compute_puzzle_fingerprint,hash_atom_list}",
             "chia_consensus::conditions::parse_args (CREATE_COIN hint rule, cross-checked)",
@@ -260,10 +252,9 @@ REGISTRY = {
                    "outputs": "0..2 created coins (3 ran out of memory), amounts symbolic u64",
                    "fingerprint": "one condition per list; CREATE_COIN with memo absent / atom / list whose first element is an atom of "
                                   "0,1,32,33 bytes or a pair; amount atom 2 bytes (quick), 0 and 8 (thorough); one-argument opcodes 61,73,80"},
-        "stubs": [S1, S2, S3, "S3 variant: stand-in atom for the singleton top layer hashes to SINGLETON_TOP_LAYER_V1_1_HASH (c19_ff_*)",
-                  "H1 shim", "H3 MempoolVisitor::verif_with_counter"],
-        "outside": ["running the rewritten solution (CLVM execution): 'runs successfully', 'satisfies its self-assertions', 'creates the same coins'",
-                    "eve proofs and malformed puzzle / solution shapes (from_clvm errors) in fast_forward_singleton", "MempoolVisitor::post_process (ephemeral FF spends; needs coin ids of outputs)",
+        "stubs": [S1, S2, S3, "H1 shim", "H3 MempoolVisitor::verif_with_counter"],
+        "outside": ["fast_forward_singleton: refusal conditions and rewrite (harness c19x_ff_* did not finish), and running the rewritten solution (CLVM)",
+                    "MempoolVisitor::post_process (ephemeral FF spends; needs coin ids of outputs)",
                     "lists with several conditions (the encoding is per condition and concatenated)"],
         "assumptions": [],
     },
